@@ -110,8 +110,22 @@ def judge(case):
             "sample": {"text": text[:400], "inputs": [M.dec_inputs(e) for e in case["inputs"][:2]]}}
 
 
+def judge_text(case):
+    """a raw text the reference recogniser accepts (found by the atheris campaign) must compile"""
+    text = case["text"]
+    if refgrammar.classify(text) != "accept":
+        return {"viol": [], "nontrivial": False, "tags": ["text:not-a-sentence"]}
+    ids = {t for ty, t in refgrammar.lex(text) if ty == "ID"}
+    if ids & (known_ids() | gen.AMBIGUOUS_NAMES):
+        return {"viol": [], "nontrivial": False, "tags": ["text:k1"]}
+    res = sut.compile_text(text)
+    viol = [] if res[0] == "ok" else ["grammatical text does not compile: %s: %s | %r" % (res[1], res[2], text)]
+    return {"viol": viol, "nontrivial": True, "tags": ["text:sentence"], "key": text}
+
+
 def judge_case(record):
-    return judge(record["case"])["viol"]
+    c = record["case"]
+    return (judge_text(c) if "text" in c else judge(c))["viol"]
 
 
 # --------------------------------------------------------------------------- K1 probe (known finding)
@@ -153,3 +167,13 @@ def run(ctx, rec):
     if rec.violations:
         return
     runner.hyp_run(ctx, rec, "large-shapes", gen.big_programs(pool=POOL), judge, ctx.n(60, 400), known_filter=known_filter)
+    if rec.violations or ctx.quick:
+        return
+    from . import c06
+
+    st_ = c06.run_atheris(ctx, rec, 30000)
+    if st_ and st_["accepted_not_compiling"]:
+        case = {"text": st_["accepted_not_compiling"]["text"]}
+        v = judge_text(case)
+        if v["viol"]:
+            rec.violation("atheris-accepted", case, v["viol"])
